@@ -24,10 +24,19 @@
   truncation (every proper non-empty prefix of every grammatical JSON text other than a bare
   number is an error, whole or chunked; a `finalize` that accepts means the parser is idle or
   holds a complete top-level number).
+
+  UBJSON PARSER (namespace `SF.PropsUbjP.C03`): no panic (every entry point, every byte string and
+  chunking, from every state satisfying the invariant `Inv` — true of a new parser, preserved
+  by every step; kernel-checked counter-states show it is needed) and NO SPINNING: every loop
+  iteration consumes input or delivers an event (`execStep_advances`), so the model's fuel can
+  only be exhausted by an event flood — the recorded finding `[$Z#l…` — never by a loop that
+  makes no progress (`feedUntil_no_spin`, `parse_no_hang`).  An a-priori bound on the number of
+  events in terms of the input alone is NOT proved (and false as a linear bound: known finding).
 -/
 import SF.Proofs.CborNoPanic
 import SF.Proofs.CborTermTop
 import SF.Proofs.JsonParseTop
+import SF.Proofs.UbjParseTop
 namespace SF.Props.C03
 open SF SF.Cbor SF.Cbor.Parse
 
@@ -226,3 +235,44 @@ theorem truncated_is_incomplete (p : P) (h : ParseP.WF p) (hcs : p.currentState 
   SF.Json.ParseTop.truncated_is_incomplete p h hcs hn
 
 end SF.PropsJson.C03
+
+/-! ## UBJSON parser (SF/Ubjson/Parse.lean; proofs SF/Proofs/Ubj{Item,Tree,NoPanic*,Num,Ref*,Prog*,ParseTop}.lean) -/
+
+namespace SF.PropsUbjP.C03
+open SF SF.Ubjson SF.Ubjson.Parse SF.Ubjson.Syn
+open StateType StateStep
+
+/-- C03 (no panic) for UBJSON: `Parse` on ANY bytes never panics … -/
+theorem parse_no_panic (b : Bytes) : (parse {} b).2 ≠ some .panic := SF.Props.UbjParse.parse_no_panic b
+
+theorem inv_init (failAt : Option Nat) : Inv (init failAt) := SF.Props.UbjParse.inv_init failAt
+
+/-- … nor does any sequence of `Write` calls with ANY chunking followed by the end-of-input
+check, from any state satisfying the invariant -/
+theorem writeChunks_no_panic (cs : List Bytes) (p : P) (h : Inv p) (herr : p.err ≠ some .panic) :
+    (writeChunks p cs).2 ≠ some .panic := SF.Props.UbjParse.writeChunks_no_panic cs p h herr
+
+/-- … nor `ParseReader` with ANY read sizes -/
+theorem parseReader_no_panic (reads : List Bytes) (p : P) (h : Inv p) (herr : p.err ≠ some .panic) :
+    (parseReader p reads).2 ≠ some .panic := SF.Props.UbjParse.parseReader_no_panic reads p h herr
+
+/-- one step: no panic, invariant preserved -/
+theorem execStep_no_panic (p : P) (b : Bytes) (h : Inv p) (herr : p.err ≠ some .panic)
+    (hg : b ≠ [] ∨ pending p = true) :
+    (execStep p b).err ≠ some .panic ∧ Inv (execStep p b).p ∧ (execStep p b).p.err ≠ some .panic :=
+  SF.Props.UbjParse.execStep_no_panic p b h herr hg
+
+/-- C03 (no spinning) for UBJSON: if the inner loop ever exhausts `f` iterations from a new
+parser, then `f ≤ 4·|b| + 2·(events delivered)`: every iteration consumed input or delivered an
+event — the loop cannot spin without progress -/
+theorem feedUntil_no_spin_fresh (f : Nat) (b : Bytes) (h : (feedUntil f {} b).err = some .outOfFuel) :
+    f ≤ 4 * b.length + 2 * (feedUntil f {} b).p.evs.length :=
+  SF.Props.UbjParse.feedUntil_no_spin_fresh f b h
+
+/-- … so `Parse` can only run out of the model's fuel by delivering a million events (the
+recorded finding: a typed container of payload-free elements with a huge count) -/
+theorem parse_no_hang (b : Bytes) (h : (parse {} b).2 = some .outOfFuel) :
+    1000000 ≤ (parse {} b).1.evs.length + b.length :=
+  SF.Props.UbjParse.parse_no_hang b h
+
+end SF.PropsUbjP.C03
